@@ -3,6 +3,7 @@ CONSTANTS
   NameMask = 7
   Family = "neg"
   MaxKeys = 2
+  MaxEdits = 1
   Defect = "leb128"
 INVARIANT OrderInv
 CHECK_DEADLOCK FALSE
